@@ -31,7 +31,7 @@ class Ctx:
         self.elem = 'f32'      # 'f64' during the thorough tier's twin pass (every root re-instantiated with f64 elements)
 
     # ------------------------------------------------------------ analysis
-    def scan(self, roots, features, local=False, extra_prelude=''):
+    def scan(self, roots, features, local=False, extra_prelude='', extra_deps=''):
         if self.only: roots = [r for r in roots if self.only in r.name]
         if self.elem == 'f64':
             roots = [vrun.Root(r.name, r.code.replace(r.name, '\0N\0').replace('f32', 'f64').replace('\0N\0', r.name), [o.replace('f32', 'f64') for o in r.opaque], r.max_paths) for r in roots]
@@ -39,7 +39,7 @@ class Ctx:
         if len(set(names)) != len(names):
             dup = [n for n in names if names.count(n) > 1]
             raise Internal('duplicate root names: %s' % sorted(set(dup))[:5])
-        sc = vrun.scan(roots, features, local=local, extra_prelude=extra_prelude)
+        sc = vrun.scan(roots, features, local=local, extra_prelude=extra_prelude, extra_deps=extra_deps)
         self.scan_wall += sc.wall
         if sc.compile_error is not None:
             err = first_error(sc.compile_error)
